@@ -10,7 +10,9 @@ RULE = ("seven case kinds. rt (35%): the C05 expression generator (all operators
         "malformed wrappers, read by SolverContext::get_value through a scripted solver process; in the solver streams the answers of real z3 / cvc5 "
         "get-value queries on generated expressions. cmd (12%): every SmtCommand through serialize_cmd and parse_command. script (8%): 1..4 command lines "
         "through read_command (comment / blank lines, a command split over two lines, truncated last command, missing final newline; 1/4 of the scripts "
-        "declare or define ONE name twice, in two push/pop scopes at two sorts, and use it after each introduction) with an end-of-input "
+        "declare or define ONE name twice, in two push/pop scopes at two sorts, and use it after each introduction; 1/4 declare / define symbols whose "
+        "names consist of lexical delimiters - an odd number of double quotes, string-literal-like text, ';', parentheses, '#', line breaks and tabs inside |..| - "
+        "and use them in later commands) with an end-of-input "
         "watchdog. gua (5%): get-unsat-assumptions answers through SolverContext::get_unsat_assumptions. distinct = distinct case lines")
 ASSUMPTIONS = [
     "Model/SmtLex.v + Model/SmtParse.v mirror patronus/src/smt/parser.rs (lexer state machine, the stack machine of parse_expr_or_type with parse_pattern / "
